@@ -1,6 +1,6 @@
 import Driver.Codec
-import CardVerif.Model.Betting
-import CardVerif.Model.Omaha
+import CardModel.Model.Betting
+import CardModel.Model.Omaha
 open Lean CardVerif CardVerif.Codec CardVerif.Betting
 
 namespace CardVerif.Driver
